@@ -135,20 +135,20 @@ func Load(repo string, patterns []string) (*Ctx, error) {
 	if len(ctx.loadErrors) > 0 {
 		return ctx, fmt.Errorf("package load errors: %s", strings.Join(ctx.loadErrors, "; "))
 	}
-	prog, spkgs := ssautil.AllPackages(pkgs, ssa.GlobalDebug|ssa.BareInits)
+	prog, spkgs := ssautil.Packages(pkgs, ssa.GlobalDebug|ssa.BareInits)
 	_ = spkgs
 	prog.Build()
 	ctx.prog = prog
 	ctx.pkgs = pkgs
-	packages.Visit(pkgs, nil, func(p *packages.Package) {
+	for _, p := range pkgs {
 		if p.Types != nil {
-			ctx.typePkgs = append(ctx.typePkgs, p.Types)
 			ctx.byPath[p.PkgPath] = p
-			if sp := prog.Package(p.Types); sp != nil {
-				ctx.spkg[p.PkgPath] = sp
-			}
 		}
-	})
+	}
+	for _, sp := range prog.AllPackages() {
+		ctx.typePkgs = append(ctx.typePkgs, sp.Pkg)
+		ctx.spkg[sp.Pkg.Path()] = sp
+	}
 	sort.Slice(ctx.typePkgs, func(i, j int) bool { return ctx.typePkgs[i].Path() < ctx.typePkgs[j].Path() })
 	// contract files of every loaded in-repo package
 	for _, p := range ctx.byPath {
